@@ -20,14 +20,15 @@ NoIdOver(S) == UNION { { SV(<<[id |-> ix[1], seq |-> ix[2]]>> \o Ents(f, D, Node
                        D \in { E \in SUBSET Nodes : Cardinality(E) <= 1 },
                        ix \in {<<NoId, NoSeq>>, <<NoId, MaxSeq>>, <<RootId, MaxSeq>>} }
 \* a vector that names one node twice, with two different sequence numbers (both orders); between the two
-\* entries at most one entry of another node. DupOver: every pair, any other node, any value;
-\* DupSome: the pair is 0 and MaxSeq, the other node is the next one in NodeOrder and has MaxSeq
+\* entries at most one entry of another node. DupOver: every pair, the other node is the next one in NodeOrder, any value;
+\* DupSome: the pair is 0 and MaxSeq, the other node is the next one in NodeOrder and has MaxSeq (only
+\* for the own node also without another node)
 NextNode(n) == LET i == CHOOSE x \in 1..Len(NodeOrder) : NodeOrder[x] = n IN NodeOrder[(i % Len(NodeOrder)) + 1]
 DupPk(n, s1, s2, mid) == SV(<<[id |-> n, seq |-> s1]>> \o mid \o <<[id |-> n, seq |-> s2]>>)
 DupOver(S) == UNION { { DupPk(t[1], t[2], t[3], <<>>) } \cup
-                      { DupPk(t[1], t[2], t[3], <<[id |-> m, seq |-> s]>>) : m \in Nodes \ {t[1]}, s \in S } :
+                      (IF Len(NodeOrder) > 1 THEN { DupPk(t[1], t[2], t[3], <<[id |-> NextNode(t[1]), seq |-> x]>>) : x \in S } ELSE {}) :
                       t \in { u \in Nodes \X S \X S : u[2] # u[3] } }
-DupSome == UNION { { DupPk(t[1], t[2], t[3], <<>>) } \cup
+DupSome == UNION { (IF t[1] = Self \/ Len(NodeOrder) = 1 THEN { DupPk(t[1], t[2], t[3], <<>>) } ELSE {}) \cup
                    (IF Len(NodeOrder) > 1 THEN { DupPk(t[1], t[2], t[3], <<[id |-> NextNode(t[1]), seq |-> MaxSeq]>>) } ELSE {}) :
                    t \in { u \in Nodes \X {0, MaxSeq} \X {0, MaxSeq} : u[2] # u[3] } }
 Malformed == { [k |-> kk, es |-> <<>>] : kk \in {"empty", "garbage", "nowrapper", "badname", "unsigned", "seqlen0", "seqlen3"} }
